@@ -187,8 +187,13 @@ impl ArcExpression {
             Literal(lit) => Some(ResultTerm::from(ArcTerm::Literal(lit.clone())).into()),
             Variable(var) => binding.v.get(var.as_str()).cloned().map(EvalResult::from),
             Or(lhs, rhs) => {
-                let lhs = lhs.eval(binding, config, graph_matcher)?.is_truthy();
-                let rhs = rhs.eval(binding, config, graph_matcher)?.is_truthy();
+                // NB: an error in one operand does not always make the whole expression an error
+                let lhs = lhs
+                    .eval(binding, config, graph_matcher)
+                    .and_then(|r| r.is_truthy());
+                let rhs = rhs
+                    .eval(binding, config, graph_matcher)
+                    .and_then(|r| r.is_truthy());
                 match (lhs, rhs) {
                     (Some(a), Some(b)) => Some(a || b),
                     (Some(true), None) | (None, Some(true)) => Some(true),
@@ -197,8 +202,13 @@ impl ArcExpression {
                 .map(EvalResult::from)
             }
             And(lhs, rhs) => {
-                let lhs = lhs.eval(binding, config, graph_matcher)?.is_truthy();
-                let rhs = rhs.eval(binding, config, graph_matcher)?.is_truthy();
+                // NB: an error in one operand does not always make the whole expression an error
+                let lhs = lhs
+                    .eval(binding, config, graph_matcher)
+                    .and_then(|r| r.is_truthy());
+                let rhs = rhs
+                    .eval(binding, config, graph_matcher)
+                    .and_then(|r| r.is_truthy());
                 match (lhs, rhs) {
                     (Some(a), Some(b)) => Some(a && b),
                     (Some(false), None) | (None, Some(false)) => Some(false),
